@@ -41,7 +41,7 @@ Opt(df, merge, deadq) == [df |-> df, merge |-> merge, deadq |-> deadq, mut |-> "
 (* how an observation that differs from the reference is named *)
 Mismatch(obs, ref) ==
     CASE obs.t = "404" /\ ref.t # "404" -> "NotFoundButResourceMatches"
-      [] obs.t = "405" /\ ref.t = "405" -> "NotAllowedSetIncomplete"
+      [] obs.t = "405" /\ ref.t = "405" -> "NotAllowedSetWrong"
       [] obs.t = "405" /\ ref.t = "match" -> "NotAllowedButRouteServes"
       [] obs.t = "match" /\ ref.t = "match" /\ obs.i # ref.i -> "WrongHandler"
       [] obs.t = "match" /\ ref.t = "match" -> "WrongMatchInfo"
